@@ -69,7 +69,7 @@ func execFamily(fc *FamilyCase) (sig, summary string) {
 
 	reg := keyholder.VerifNewRegistry()
 
-	proto, err := finalizers.CreatePrototype(&cctx{reg}, "jwt", finalizers.FinalizerJwt, map[string]any{
+	proto, err := finalizers.CreatePrototype(&cctx{reg: reg}, "jwt", finalizers.FinalizerJwt, map[string]any{
 		"signer": map[string]any{"key_store": map[string]any{"path": path}},
 		"ttl":    "5m",
 		"claims": `{"role":"reader"}`,
